@@ -16,16 +16,22 @@ COMPONENT = "progargs"
 DRIVER = "model-progargs"
 
 FRAGMENT = ("modelled fragment: destinations flag/int/string/LevelCounter/vector<int> (optionally multi-value), checks "
-            "lower/upper/range/values/minLength/maxLength, cardinalities none/max/exact/range, constraints "
-            "requires/excludes, handler constraints all-of/any-of/one-of, abbreviations on/off, argument file and "
-            "environment variable sources, evaluation through Groups; not modelled: sub-groups, bracket handlers, "
-            "inversion, value mode 'command', callables, formats, pair/range/other destinations, floating point")
+            "lower/upper/range/values/minLength/maxLength/pattern (std::regex_match through the executable matcher "
+            "Model/Regex.lean on a restricted ECMAScript subset: literals, '.', classes, \\d \\w \\s, * + ?, |, groups, "
+            "^ $), cardinalities none/max/exact/range, constraints requires/excludes, handler constraints "
+            "all-of/any-of/one-of and the value constraints differ (int/string) / disjoint (two vector<int>), "
+            "abbreviations on/off, argument file and environment variable sources, evaluation through Groups; not "
+            "modelled: sub-groups, bracket handlers, inversion, value mode 'command', callables, formats, "
+            "pair/range/other destinations, floating point, patterns outside the subset (back-references, look-ahead, "
+            "counted repetition, POSIX classes)")
 TRUST = [
     "hand-written models CelmaVerif/Model/ProgArgs/{Iter,Handler,Groups}.lean, Model/Keys.lean, Model/ArgString.lean, "
     "tied to handler.cpp / arg_list_iterator.hpp / typed_arg*.{hpp,cpp} / constraint_*.cpp / cardinality_*.cpp / "
     "check_*.hpp / groups.cpp by the correspondence run (harness/prog_args.cpp: real Handler/Groups objects, "
     "ASan+UBSan) on every invocation",
     "boost::lexical_cast<int> = optional sign + decimal digits + range check; boost::char_separator drops empty tokens",
+    "Model/Regex.lean (Brzozowski derivatives) agrees with libstdc++ std::regex_match on the pattern subset: exercised by "
+    "every run (generator PATTERNS with matching and non-matching values, expectation checked on the implementation)",
     FRAGMENT,
 ]
 
@@ -83,6 +89,10 @@ def make_case(rng, cid, what):
         return source_multi_case(rng, cid)
     if ("valid" in what or "broken" in what) and rng.random() < 0.12:
         return constraint_spelling_case(rng, cid)
+    if ("valid" in what or "broken" in what or "groups" in what) and rng.random() < 0.08:
+        return value_constraint_case(rng, cid)
+    if ("valid" in what or "broken" in what) and rng.random() < 0.05:
+        return pattern_case(rng, cid)
     if "groups" in what and rng.random() < 0.25:
         return group_freevalue_case(rng, cid)
     if "groups" in what and rng.random() < 0.2:
@@ -190,6 +200,7 @@ def make_case(rng, cid, what):
         single = set(m for kind, mem, _s in globs if kind in ("anyof", "oneof") for m in mem)
         cand = [i for i, a_ in enumerate(args)
                 if a_.kind in ("int", "str", "vec") and a_.maxuses() < 99 and not a_.cons and i not in single
+                and not any(i in mem_ for _k, mem_, _s in globs if _k in ("differ", "disjoint"))
                 and not any(i in tgt for b_ in args for _, tgt, _s in b_.cons) and any(u[0] == i for u in uses)]
         if cand:
             i = rng.choice(cand)
@@ -401,6 +412,124 @@ def constraint_spelling_case(rng, cid):
     return Case(cid, lines + out[:24])
 
 
+def value_constraint_case(rng, cid):
+    """differ over three int arguments and disjoint over two list arguments, the constraint written through different
+    key spellings; equal values in every pair (also equal only after conversion: 7 / +7 / 07), values given twice (the
+    last one counts), common elements at every position of unsorted lists and against the initial content; the same
+    lines through a group that keeps the partners together; and the set-up refusals of validValueArguments"""
+    sp, sb, sq, sa, sc = rng.sample(G.SHORTS, 5)
+    lp, lb, lq, la, lc = rng.sample(G.LONGS, 5)
+    abbr = rng.randint(0, 1)
+    ls = (lp, lb, lq, la, lc)
+    if abbr and any(x != y and (x.startswith(y) or y.startswith(x)) for x in ls for y in ls):
+        abbr = 0
+    form = lambda s_, l_: rng.choice([s_, l_, "%s,%s" % (s_, l_)])
+    init_a = [rng.randint(50, 59) for _ in range(rng.randint(0, 2))]
+    strs = rng.random() < 0.35
+    kind = "str" if strs else "int"
+    lines = ["pa cfg begin abbr=%d" % abbr,
+             "pa arg key=%s,%s kind=%s card=none" % (sp, lp, kind),
+             "pa arg key=%s,%s kind=%s" % (sb, lb, kind),
+             "pa arg key=%s,%s kind=%s" % (sq, lq, kind),
+             "pa arg key=%s,%s kind=vec%s" % (sa, la, " init=" + ",".join(map(str, init_a)) if init_a else ""),
+             "pa arg key=%s,%s kind=vec multi" % (sc, lc),
+             "pa glob differ %s;%s;%s" % (form(sp, lp), form(sb, lb), form(sq, lq)),
+             "pa glob disjoint %s;%s" % (form(sa, la), form(sc, lc)),
+             "pa cfg end"]
+    out = []
+    key = lambda s_, l_: rng.choice(["-" + s_, "--" + l_])
+
+    def sval(v):
+        return "i=%d" % v if not strs else "s=%s" % G.hx(v)
+
+    def zero():
+        return 0 if not strs else ""
+
+    def exp(p=None, b=None, q=None, va=(), vc=()):
+        z = zero()
+        return "ok 0:%s 1:%s 2:%s 3:v=[%s] 4:v=[%s]" % (
+            sval(z if p is None else p), sval(z if b is None else b), sval(z if q is None else q),
+            ",".join(map(str, init_a + list(va))), ",".join(map(str, vc)))
+
+    def add(label, e, ws):
+        out.append(("pa eval x-lbl=%s x-exp=%s -- %s" % (label, G.hx(e), words_hex(ws)), label, e, ws))
+    if strs:
+        x, y, z = rng.sample(["abc", "abd", "ab", "Abc", "x", "abc "[:3] + "c"], 3)
+        tx = lambda v: v
+        same = lambda v: v
+    else:
+        x, y, z = rng.sample(range(0, 30), 3)
+        tx = lambda v: str(v)
+        same = lambda v: rng.choice([str(v), "+%d" % v, "0%d" % v])
+    kp, kb, kq = (lambda: key(sp, lp)), (lambda: key(sb, lb)), (lambda: key(sq, lq))
+    add("vc-differ-ok", exp(x, y, z), [kp(), tx(x), kb(), tx(y), kq(), tx(z)])
+    add("vc-differ-one", exp(p=x), [kp(), tx(x)])
+    add("vc-differ-two", exp(b=y, q=x), [kq(), tx(x), kb(), tx(y)])
+    for (k1, k2) in ((kp, kb), (kp, kq), (kb, kq), (kq, kp)):
+        add("vc-differ-same", "throw", [k1(), tx(x), k2(), same(x)])
+    add("vc-differ-same3", "throw", [kp(), tx(x), kb(), tx(y), kq(), same(x)])
+    # the last value counts: first equal, then different → accepted; first different, then equal → refused
+    add("vc-differ-last-ok", exp(p=z, b=x), [kp(), tx(x), kb(), tx(x), kp(), tx(z)])
+    add("vc-differ-last-same", "throw", [kp(), tx(z), kb(), tx(x), kp(), same(x)])
+    ka, kc = (lambda: key(sa, la)), (lambda: key(sc, lc))
+    e1, e2, e3, e4 = rng.sample(range(1, 40), 4)
+    add("vc-disjoint-ok", exp(va=[e3, e1], vc=[e4, e2]), [ka(), "%d,%d" % (e3, e1), kc(), "%d,%d" % (e4, e2)])
+    add("vc-disjoint-one", exp(va=[e1]), [ka(), str(e1)])
+    for la_, lc_ in (([e3, e1], [e1]), ([e1], [e2, e1]), ([e3, e1], [e4, e1]), ([e1, e3], [e3, e2]), ([e2, e3, e1], [e4, e2]),
+                     ([e1], [e1])):
+        ws = [ka(), ",".join(map(str, la_)), kc()] + [str(v) for v in lc_]      # -c is multi-value: free values
+        add("vc-disjoint-common", "throw", ws)
+        add("vc-disjoint-common", "throw", [kc(), ",".join(map(str, lc_)), ka(), ",".join(map(str, la_))])
+    if init_a:
+        add("vc-disjoint-init", "throw", [kc(), "%d,%d" % (e1, init_a[-1])])
+        add("vc-disjoint-init-ok", exp(vc=[e1]), [kc(), str(e1)])
+    rng.shuffle(out)
+    res = [o[0] for o in out[:20]]
+    # through a group: the differ partners in one member, the disjoint partners in one member
+    for o in out[20:28]:
+        mem = rng.choice(["00011/01", "11100/10", "00000/00", "00011/01"])
+        od = "".join(rng.sample(sorted(set(mem.replace("/", ""))), len(set(mem.replace("/", "")))))
+        res.append("pa group x-lbl=group-%s x-exp=%s members=%s order=%s -- %s" % (o[1], G.hx(o[2]), mem, od, words_hex(o[3])))
+    case_lines = lines + res
+    # set-up refusals (the model's set-up refuses the same definitions: compared line by line)
+    bad = rng.choice(["differ %s" % sp, "differ %s;%s" % (sp, sa), "disjoint %s;%s" % (sp, sb) + ";" + sq,
+                      "disjoint %s;%s" % (sa, sp), "differ %s;%s" % (sp, lp), "differ %s;nosuch" % sp,
+                      "disjoint %s" % la])
+    case_lines += ["pa cfg begin abbr=%d" % abbr] + lines[1:6] + ["pa glob " + bad, "pa cfg end"]
+    return Case(cid, case_lines)
+
+
+def pattern_case(rng, cid, which=None):
+    """string arguments with a pattern check: every listed matching value must be accepted and stored, every listed
+    non-matching value refused (std::regex_match: the whole value), through every key form"""
+    idx = which if which is not None else rng.sample(range(len(G.PATTERNS)), min(3, len(G.PATTERNS)))
+    shorts = rng.sample(G.SHORTS, len(idx))
+    lines = ["pa cfg begin abbr=0"]
+    for s_, i in zip(shorts, idx):
+        lines.append("pa arg key=%s,p%d kind=str card=none check=pattern:%s" % (s_, i, G.hx(G.PATTERNS[i][0])))
+    lines.append("pa cfg end")
+    out = []
+    for pos, (s_, i) in enumerate(zip(shorts, idx)):
+        pat, good, badv = G.PATTERNS[i]
+
+        def forms(v):
+            fs = [["--p%d=%s" % (i, v)], ["-%s%s" % (s_, v)]]
+            if G.next_word_ok(v):
+                fs += [["-" + s_, v], ["--p%d" % i, v]]
+            return fs
+        for v in good:
+            e = "ok " + " ".join("%d:s=%s" % (k, G.hx(v) if k == pos else "-") for k in range(len(idx)))
+            for ws in forms(v):
+                out.append("pa eval x-lbl=pattern-match x-exp=%s -- %s" % (G.hx(e), words_hex(ws)))
+        for v in badv:
+            for ws in forms(v):
+                out.append("pa eval x-lbl=pattern-nomatch x-exp=%s -- %s" % (G.hx("throw"), words_hex(ws)))
+    if which is None:
+        rng.shuffle(out)
+        out = out[:40]
+    return Case(cid, lines + out)
+
+
 def group_define_case(rng, cid):
     """definition-time cross check: the members are created first, then keys are defined in an arbitrary sequence
     over the members; a key that equals or mismatches a key defined earlier in ANOTHER (or the same) member must be
@@ -558,6 +687,9 @@ def generate(prop, tier, seed, scale=1):
         if c is not None and len(c.lines) > 2:
             cases.append(c)
     yield "generated", cases
+    if prop in ("C01", "C02", "C03"):
+        yield "exhaustive: every pattern of the fixed list x every listed matching / non-matching value x every key form", \
+            [pattern_case(rng, "pat-%d" % k, which=[k]) for k in range(len(G.PATTERNS))]
     if prop in ("C01", "C02", "C03", "C04", "C08"):
         n = 2 if tier == "quick" else 3
         yield "exhaustive argv of <= %d words over a %d-word vocabulary x 3 configurations" % (n, len(EXH_VOCAB)), \
